@@ -13,7 +13,8 @@ RULE = ("writer: destination.NewWriter over a scripted io.Writer (takes all / ta
         "the underlying writer accepted. live: a real Destination connected to a loopback endpoint, iobuf 1 B .. 4 KiB, connbuf 0 .. 200, flush "
         "periods 2-20 ms, 50-300 uniquely numbered lines of 5 B .. several x iobuf, sender pacing and endpoint read speed varied; the received "
         "byte stream and the slow_conn counter go through the acceptor stream_ok (whole lines, one newline each, hand-off order, no "
-        "duplicates, exactly the counted drops missing). non-trivial & distinct = distinct writer scripts with an overflow or error, and live "
+        "duplicates, exactly the counted drops missing); the same in pickle mode (names of 5 .. 300 bytes), where the received stream of "
+        "length-prefixed pickles is decoded by CPython back into lines first. non-trivial & distinct = distinct writer scripts with an overflow or error, and live "
         "runs in which the buffer was smaller than some line")
 ASSUMPTIONS = ["TCP delivers to the endpoint what a healthy peer wrote, in order", "the io.Writer contract (n < len(p) only with an error) for termination of Write"]
 TRUSTED = ["oracle: net.TCPConn, Go scheduler"]
@@ -56,10 +57,49 @@ def gen_live(rng):
             "lines": lines, "pause_every": rng.choice([0, 0, 1, 10, 50]), "slow_read_us": rng.choice([0, 0, 100, 1000])}
 
 
+def gen_live_pickle(rng):
+    """pickle mode: one frame per line; integer values so that the line can be rebuilt from the decoded frame"""
+    c = gen_live(rng)
+    lines = []
+    for i in range(len(c["lines"])):
+        L = rng.choice([5, 30, 60, 99, 100, 101, 127, 128, 129, 300, rng.randrange(5, 200)])
+        name = "p%d." % i
+        name = name + "n" * max(0, L - len(name))
+        lines.append(("%s %d %d" % (name, i, 1500000000 + i % 100)).encode().hex())
+    c["lines"] = lines
+    c["pickle"] = True
+    return c
+
+
+def unpickle_stream(b):
+    """the plain-text stream equivalent to a stream of length-prefixed pickles; anything that is not such a stream ends in a marker
+    that no acceptor takes for a line"""
+    import pickle
+    import struct
+    out, k = b"", 0
+    try:
+        while k < len(b):
+            if k + 4 > len(b):
+                raise ValueError("torn length prefix")
+            n = struct.unpack(">I", b[k:k + 4])[0]
+            if n == 0 or k + 4 + n > len(b):
+                raise ValueError("frame length %d at %d" % (n, k))
+            (item,) = pickle.loads(b[k + 4:k + 4 + n], encoding="latin1")
+            name, (ts, val) = item
+            if float(val) != int(val):
+                raise ValueError("value")
+            out += ("%s %d %d\n" % (name, int(val), ts)).encode("latin1")
+            k += 4 + n
+    except Exception as e:
+        out += b"<<not a sequence of length-prefixed pickles: %s>>" % str(e).encode()[:60]
+    return out
+
+
 def gen(rng, tier):
     nw = 600 if tier == "quick" else 6000
     nl = 24 if tier == "quick" else 200
-    return [gen_writer(rng) for _ in range(nw)] + [gen_live(rng) for _ in range(nl)]
+    npk = 8 if tier == "quick" else 60
+    return [gen_writer(rng) for _ in range(nw)] + [gen_live(rng) for _ in range(nl)] + [gen_live_pickle(rng) for _ in range(npk)]
 
 
 def to_coq(case, obs):
@@ -70,8 +110,10 @@ def to_coq(case, obs):
             w = "WWrite %s" % cbytes(bytes.fromhex(op["w"])) if "w" in op else "WFlush"
             ops.append(ctuple(w, ctuple(ctuple(cnat(o["n"]), cbool(o["err"])), cnat(o["buffered"]))))
         return "KWriter %s %s %s %s" % (cnat(case["cap"]), script, clist(ops, "(wop * wobs)"), cbytes(bytes.fromhex(obs["emitted"])))
-    return "KLive %s %s %s" % (clist([cbytes(bytes.fromhex(l)) for l in case["lines"]], "bytes"), cbytes(bytes.fromhex(obs["received"])),
-                               cnat(obs["slow_conn"]))
+    received = bytes.fromhex(obs["received"])
+    if case.get("pickle"):
+        received = unpickle_stream(received)
+    return "KLive %s %s %s" % (clist([cbytes(bytes.fromhex(l)) for l in case["lines"]], "bytes"), cbytes(received), cnat(obs["slow_conn"]))
 
 
 def discard(case, obs):
